@@ -32,11 +32,12 @@ ASSUMPTIONS = [
     "i.e. also while blocks are still initialising",
 ]
 REQUIRED = {'sends_judged': 300, 'delivered': 100, 'refused': 100, 'name_checks': 100,
-            'phases_seen': 12, 'autoname_checks': 10}
+            'phases_seen': 14, 'autoname_checks': 10}
 SHARDS = {'quick': 4, 'thorough': 16}
 TIMEOUT = {'quick': 300, 'thorough': 3000}
 
-PHASES = ['no_task', 'finalized_no_task', 'task_created', 'initialising', 'running', 'abort_requested', 'in_stop',
+PHASES = ['no_task', 'finalized_no_task', 'task_created', 'initialising', 'running', 'abort_requested',
+          'shutdown_called', 'ctrl_shutdown_requested', 'in_stop',
           'in_stop_async', 'finished_shutdown', 'finished_error', 'finished_ctrl', 'after_sigterm']
 DELIVER = {'initialising', 'running'}
 DESTS = ['probe', 'input', 'counter', 'fsm']
@@ -146,7 +147,7 @@ def run_phase_case(case, ctx):
             dest = Fsm('dest')
         objs['dest'] = dest
         Gate('gate', x_hold=phase == 'initialising', x_phase=phase, init_timeout=10, stop_timeout=5)
-        if phase == 'finished_ctrl':
+        if phase in ('finished_ctrl', 'ctrl_shutdown_requested'):
             objs['trig'] = edzed.Input('trig', initdef=0, on_output=edzed.Event(
                 '_ctrl', 'shutdown', efilter=edzed.not_from_undef))
         if phase == 'finished_error':
@@ -192,6 +193,19 @@ def run_phase_case(case, ctx):
         elif phase == 'abort_requested':
             circuit.abort(RuntimeError('vf abort'))
             do_send(phase)
+        elif phase == 'shutdown_called':
+            # another task has called shutdown() and waits for the simulation task, which has
+            # not been resumed yet: the circuit is shutting down, events must be refused
+            sdtask = asyncio.create_task(circuit.shutdown())
+            await asyncio.sleep(0)      # sdtask runs its first step, then we are resumed
+            res['shutdown_called_state'] = (sdtask.done(), task.done())
+            do_send(phase)
+            await sdtask
+            return
+        elif phase == 'ctrl_shutdown_requested':
+            # a 'shutdown' control event was handled; the simulation task has not reacted yet
+            edzed.ExtEvent(objs['trig']).send(1)
+            do_send(phase)
         elif phase in ('in_stop', 'in_stop_async'):
             pass
         elif phase == 'finished_ctrl':
@@ -232,6 +246,8 @@ def judge_phase(case, res, ctx):
     recv = res['recv']
     src = expected_source(shape)
     where = f"phase={phase} dest={destkind} shape={shape}"
+    if phase == 'shutdown_called' and res.get('shutdown_called_state') != (False, False):
+        raise core.Violation('harness-phase-not-reached', f"{where}: {res.get('shutdown_called_state')}")
     if phase == 'initialising' and res.get('initialising_state') != (True, False):
         raise core.Violation('harness-phase-not-reached', f"{where}: {res.get('initialising_state')}")
     if phase not in DELIVER:
